@@ -277,6 +277,22 @@ func build(v Vector) ([]impl, error) {
 		}
 		out = append(out, impl{"merged", hcl.MergeBodies([]hcl.Body{f1.Body, b2})})
 	}
+	if len(v.Items) >= 3 {
+		// a merge whose FIRST member is itself a merge of two bodies, followed by a third body
+		var parts []hcl.Body
+		for i := 0; i < 3; i++ {
+			lo, hi := i, i+1
+			if i == 2 {
+				hi = len(v.Items)
+			}
+			f, d := hclsyntax.ParseConfig([]byte(nativeText(v.Items[lo:hi], false)), fmt.Sprintf("n%d.hcl", i), hcl.InitialPos)
+			if d.HasErrors() {
+				return nil, fmt.Errorf("native third does not parse: %s", d.Error())
+			}
+			parts = append(parts, f.Body)
+		}
+		out = append(out, impl{"merged-nested", hcl.MergeBodies([]hcl.Body{hcl.MergeBodies(parts[:2]), parts[2]})})
+	}
 	df, dd := hclsyntax.ParseConfig([]byte(nativeText(v.Items, true)), "d.hcl", hcl.InitialPos)
 	if dd.HasErrors() {
 		return nil, fmt.Errorf("dynamic rendering does not parse: %s", dd.Error())
